@@ -68,6 +68,12 @@ def make_cases(chk, rng):
                     A = qd_values(rng, n, mask, zero_pivot=zp)
                     b = [F(rng.randint(-3, 3)) for _ in range(n)]
                     L.append(f"ldl.sparse {n} {' '.join(map(str, pm))} {n} {n} {entries(A, mask, n)} {' '.join(fs(x) for x in b)}")
+            # storage level: the arrays of the sparse LDLt object itself (etree, column starts and counts, filled row indices and
+            # values, D, one solve) against the loop-level model PiqpModel/SparseLdl.lean, with and without a zero pivot
+            for zp in (False, True):
+                A = qd_values(rng, n, mask, zero_pivot=zp)
+                b = [F(rng.randint(-3, 3)) for _ in range(n)]
+                L.append(f"csc.ldl {n} {n} {entries(A, mask, n)} {' '.join(fs(x) for x in b)}")
             cases.append({"name": f"p{k}", "lines": L, "meta": {"kind": "pattern", "n": n}})
             k += 1
     # random larger sparse
@@ -78,7 +84,8 @@ def make_cases(chk, rng):
         A = qd_values(rng, n, mask)
         pm = rng.sample(range(n), n)
         b = [F(rng.randint(-3, 3)) for _ in range(n)]
-        cases.append({"name": f"r{i}", "lines": [f"ldl.sparse {n} {' '.join(map(str, pm))} {n} {n} {entries(A, mask, n)} {' '.join(fs(x) for x in b)}"],
+        cases.append({"name": f"r{i}", "lines": [f"ldl.sparse {n} {' '.join(map(str, pm))} {n} {n} {entries(A, mask, n)} {' '.join(fs(x) for x in b)}",
+                                                 f"csc.ldl {n} {n} {entries(A, mask, n)} {' '.join(fs(x) for x in b)}"],
                       "meta": {"kind": "random-sparse", "n": n}})
     # dense LDLTNoPivot: small sizes + sizes across the blocking threshold (32)
     sizes = [1, 2, 3, 5, 8, 31, 32, 33] + ([64, 127, 128, 129, 130, 257] if thorough else [])
@@ -217,7 +224,7 @@ def run(replay=None):
     chk.cov["operations_by_kind"] = kinds
     chk.cov["exhaustive"] = True
     # implementation-level facts printed by the harness
-    flags = {"mapok": 0, "upper": 0, "sorted": 0, "fillok": 0, "outer": 0, "isperm": 0, "inv": 0, "roundtrip": 0}
+    flags = {"mapok": 0, "upper": 0, "sorted": 0, "fillok": 0, "outer": 0, "isperm": 0, "inv": 0, "roundtrip": 0, "ldlcert": 0}
     nflag = 0
     zero_pivots = 0
     for c in cases:
@@ -233,7 +240,7 @@ def run(replay=None):
                         nflag += 1
                         if nflag <= 3:
                             chk.violation(f"impl:kernel:{t[i]}", f"kernel invariant '{t[i]}' violated (value-index map / upper-sorted output / fill within "
-                                          f"symbolic counts / restored outer pointers / permutation consistency)\ncase {c['name']}\n\ninput:\n" + case_text(c)[:6000])
+                                          f"symbolic counts / restored outer pointers / permutation consistency / L D L' = A certificate of ldlt_unique)\ncase {c['name']}\n\ninput:\n" + case_text(c)[:6000])
                     else:
                         flags[t[i]] += 1
             if t and t[0] == "error":
@@ -253,7 +260,9 @@ def run(replay=None):
                        "scaling, AMD consistency on random rectangular patterns incl. empty rows/columns; storage level (the three CSC arrays, "
                        "not the dense view) for transpose_no_allocation / pre_mult_diagonal / post_mult_diagonal against the loop-level "
                        "Csc model: every pattern of every shape up to 3x3 and the random rectangular ones; is_transpose_pattern against its loop-level model "
-                       "(binary search included) on every pair of patterns with at most 4 cells (thorough: 2x3 too) and random near-miss pairs up to 5x5")
+                       "(binary search included) on every pair of patterns with at most 4 cells (thorough: 2x3 too) and random near-miss pairs up to 5x5; "
+                       "the sparse LDLt object array by array (etree, L_cols, L_nnz, filled L_ind/L_vals, D, return value, solve_inplace) against the "
+                       "loop-level model SparseLdl on every upper pattern n<=5 (with and without zero pivot) and the random sparse ones")
     for c in cases[:2]:
         chk.sample({"case": c["name"], "line": c["lines"][0][:200]})
     if proof_ok is False and not chk.violations:
